@@ -113,6 +113,17 @@ pub fn dump_segment(seg: &SegmentReader, schema: &Schema, uid_field: &str) -> Re
                 let key = stream.key().to_vec();
                 let ti = stream.value().clone();
                 doc_freqs.push((name.clone(), key.clone(), ti.doc_freq));
+                // a JSON field records frequencies / positions only for its text terms (key = path, 0, type code, value)
+                let opt = if matches!(ft, FieldType::JsonObject(_)) {
+                    let is_text = key.iter().position(|b| *b == 0).and_then(|p| key.get(p + 1)).map(|c| *c == Type::Str.to_code()).unwrap_or(false);
+                    if is_text {
+                        opt
+                    } else {
+                        IndexRecordOption::Basic
+                    }
+                } else {
+                    opt
+                };
                 let mut postings = inv.read_postings_from_terminfo(&ti, opt).or_fail("dump:read_postings")?;
                 let mut positions = vec![];
                 let mut d = postings.doc();
